@@ -237,7 +237,7 @@ func (g *Gen) initTrusted() {
 		perm := fc.q.declareFun(fmt.Sprintf("perm_%d", fc.q.fresh), []string{sInt}, sInt)
 		n := "(slen " + sl + ")"
 		fc.q.assert(implies(st.reach, fmt.Sprintf("(forall ((pi Int)) (! (=> (and (<= 0 pi) (< pi %s)) (and (<= 0 (%s pi)) (< (%s pi) %s))) :pattern ((%s pi))))", n, perm, perm, n, perm)))
-		lam := fmt.Sprintf("(lambda ((ar Ref)) (ite (and (= (rbase ar) (rbase (sarr %s))) (<= (roff (sarr %s)) (roff ar)) (< (roff ar) (+ (roff (sarr %s)) %s))) (select %s (eref (sarr %s) (%s (- (roff ar) (roff (sarr %s)))))) (select %s ar)))", sl, sl, sl, n, old, sl, perm, sl, old)
+		lam := fmt.Sprintf("(lambda ((ar Ref)) (ite (and (= (rbase ar) (rbase (sarr %s))) (<= (roff (sarr %s)) (roff ar)) (< (roff ar) (+ (roff (sarr %s)) %s))) (select %s (eref (sarr %s) (%s (- (roff ar) (roff (sarr %s)))) 1)) (select %s ar)))", sl, sl, sl, n, old, sl, perm, sl, old)
 		nv := fc.q.freshConst(arr+"@sorted", fc.g.arrSort[arr])
 		fc.q.assert(implies(st.reach, eq(nv, lam)))
 		st.heap[arr] = nv
@@ -257,6 +257,60 @@ func (g *Gen) initTrusted() {
 	}
 	t["sort.Sort"] = &Trusted{rule: sortRule}
 	t["sort.Stable"] = &Trusted{rule: sortRule}
+	deepEq := func(fc *FnCtx, st *State, in ssa.Instruction, c *ssa.CallCommon, args []Val, resT types.Type) (Val, bool) {
+		// reflect.DeepEqual / Semantic.DeepEqual on two pointers to the same struct type whose leaves are all scalars:
+		// both nil, or both non-nil with equal fields. Anything else: an uninterpreted boolean.
+		n := len(c.Args)
+		ma, okA := c.Args[n-2].(*ssa.MakeInterface)
+		mb, okB := c.Args[n-1].(*ssa.MakeInterface)
+		if !okA || !okB || !types.Identical(ma.X.Type(), mb.X.Type()) {
+			return Val{}, false
+		}
+		pt, ok := ma.X.Type().Underlying().(*types.Pointer)
+		if !ok || !isStructLike(pt.Elem()) {
+			return Val{}, false
+		}
+		var ls []Leaf
+		fc.g.ti.leaves(pt.Elem(), 0, "", &ls)
+		for _, l := range ls {
+			if l.sort != sInt && l.sort != sStr && l.sort != sBool {
+				return Val{}, false
+			}
+		}
+		fc.useTrusted("reflect.DeepEqual on pointers to a struct of scalars: both nil, or both non-nil with equal fields")
+		a, b := fc.val(st, ma.X).T, fc.val(st, mb.X).T
+		var cs []string
+		for _, l := range ls {
+			fc.g.regArr(l.arr, l.sort)
+			cs = append(cs, eq(sel(st.get(l.arr), emb(a, l.off)), sel(st.get(l.arr), emb(b, l.off))))
+		}
+		return Val{T: or(and(eq(a, "nilref"), eq(b, "nilref")), and(not(eq(a, "nilref")), not(eq(b, "nilref")), and(cs...)))}, true
+	}
+	t["reflect.DeepEqual"] = &Trusted{pure: true, rule: deepEq}
+	// (schema.GroupVersion).String() on a well-known package-level GroupVersion variable: its literal value
+	t["(k8s.io/apimachinery/pkg/runtime/schema.GroupVersion).String"] = &Trusted{pure: true, rule: func(fc *FnCtx, st *State, in ssa.Instruction, c *ssa.CallCommon, args []Val, resT types.Type) (Val, bool) {
+		ld, ok := c.Args[0].(*ssa.UnOp)
+		if !ok {
+			return Val{}, false
+		}
+		gl, ok := ld.X.(*ssa.Global)
+		if !ok {
+			return Val{}, false
+		}
+		known := map[string]string{
+			"k8s.io/api/apps/v1.SchemeGroupVersion":                         "apps/v1",
+			"github.com/openkruise/kruise-api/apps/v1alpha1.GroupVersion":    "apps.kruise.io/v1alpha1",
+			"github.com/openkruise/kruise-api/apps/v1beta1.GroupVersion":     "apps.kruise.io/v1beta1",
+			"github.com/openkruise/kruise-api/apps/v1alpha1.SchemeGroupVersion": "apps.kruise.io/v1alpha1",
+			"github.com/openkruise/kruise-api/apps/v1beta1.SchemeGroupVersion":  "apps.kruise.io/v1beta1",
+			"k8s.io/api/core/v1.SchemeGroupVersion":                         "v1",
+		}
+		if v, ok := known[gl.Pkg.Pkg.Path()+"."+gl.Name()]; ok {
+			fc.useTrusted("GroupVersion.String() of the package-level variables apps/v1, apps.kruise.io/v1alpha1, apps.kruise.io/v1beta1 is their literal value")
+			return Val{T: fc.q.lit(v)}, true
+		}
+		return Val{}, false
+	}}
 	strPred := func(f string) *Trusted {
 		return &Trusted{pure: true, rule: func(fc *FnCtx, st *State, in ssa.Instruction, c *ssa.CallCommon, args []Val, resT types.Type) (Val, bool) {
 			return Val{T: app(f, args[0].T, args[1].T)}, true
